@@ -58,6 +58,8 @@ func c11Main(args []string) int {
 		}
 		sc := s.Scn
 		var b strings.Builder
+		// variant 3 of the materialisation (plain paragraphs): every word is an inline element
+		wrapWords := out.Cur%4 == 3 && sc.Span == 0 && sc.Gk == 0
 		for k, l := range sc.Words {
 			if k > 0 {
 				if sc.Ws == "pre-line" && k == sc.Nl {
@@ -76,7 +78,10 @@ func c11Main(args []string) int {
 					b.WriteString(fmt.Sprintf(`<span style="padding:0 %dpx">`, sc.Pad*8))
 				}
 			}
-			if sc.Gk == k+1 {
+			if wrapWords {
+				// every word in an inline element of its own: the space between two words is a text of its own
+				b.WriteString([...]string{"<b style=\"font-weight:normal\">", "<i style=\"font-style:normal\">"}[k%2] + strings.Repeat(string(rune('a'+k)), l) + [...]string{"</b>", "</i>"}[k%2])
+			} else if sc.Gk == k+1 {
 				// an inline box starts inside the word: no break opportunity at its boundary
 				b.WriteString(strings.Repeat(string(rune('a'+k)), sc.Gc) + "<span>" + strings.Repeat(string(rune('a'+k)), l-sc.Gc) + "</span>")
 			} else {
@@ -174,6 +179,9 @@ func c11Main(args []string) int {
 		}
 		if sc.Gk > 0 {
 			kind += ":box-inside-word"
+		}
+		if wrapWords {
+			kind += ":words-in-inline-elements"
 		}
 		// A second, non-greedy filling rule used ONLY to name a known class of disagreement: an inline box that does not
 		// fit entirely on the rest of the current line but fits on an empty one is moved whole to the next line.
